@@ -57,6 +57,8 @@ pub const VIOLATIONS: &[&str] = &[
     "codepoint_surrogate_u4",
     "codepoint_surrogate_braces",
     "codepoint_U00110000",
+    "codepoint_surrogate_pair_u4",
+    "codepoint_surrogate_pair_mixed",
     "codepoint_in_range",
     "codepoint_in_char_rule",
     "include_missing",
@@ -128,6 +130,8 @@ pub fn violator(src: &mut Src, which: &str) -> Case {
         "codepoint_surrogate_u4" => "Bad = 'a\\uD800';".to_string(),
         "codepoint_surrogate_braces" => "Bad = \"\\u{dfff}\";".to_string(),
         "codepoint_U00110000" => "Bad = '\\U00110000';".to_string(),
+        "codepoint_surrogate_pair_u4" => "Bad = '\\uD83D\\uDE00';".to_string(),
+        "codepoint_surrogate_pair_mixed" => "Bad = \"x\\u{d83d}\\U0000DE00y\";".to_string(),
         "codepoint_in_range" => "Bad = 'a'..'\\u{D800}';".to_string(),
         "codepoint_in_char_rule" => "@char Bad = 'a' | '\\uDABC';".to_string(),
         "include_missing" => "Bad = 'x' >Nope;".to_string(),
